@@ -72,6 +72,7 @@ MUTANTS = [
     M("c07-intmm-view-again", "C07", "break", [(MM, "out_data = torch._int_mm(activations.reshape(-1, in_features), weights)", "out_data = torch._int_mm(activations.view(-1, in_features), weights)")], "C07.R9"),
     M("c11-backward-view-again", "C11", "break", [(FUNC, "input.reshape(-1, in_features))", "input.view(-1, in_features))")], "C11.R8"),
     M("c02-group-view", "C02", "break", [(GROUP, "        return base.reshape([-1, group_size])", "        return base.view(-1, group_size)")], "C02.R4"),
+    M("c05-kernel-scale-transposed-again", "C05", "break", [(MM, "torch.matmul(activations, weights.t()) * output_scales.flatten()", "torch.matmul(activations, weights.t()) * output_scales.t()")], "C05.R14"),
     # ---------------- idiom refactors that the second batch of independent patches exposed
     M("c14-refactor-group-demorgan", "C14", "refactor", [(GROUP, "    if group_size > axis_numel or axis_numel % group_size != 0:", "    if not (group_size <= axis_numel and axis_numel % group_size == 0):")]),
     M("c14-group-guard-weakened", "C14", "break", [(GROUP, "    if group_size > axis_numel or axis_numel % group_size != 0:", "    if group_size > axis_numel and axis_numel % group_size != 0:")], "C14.R1"),
